@@ -3,6 +3,8 @@ package c19
 import (
 	"fmt"
 	"sort"
+
+	"verif/harness/pbt"
 )
 
 // The reference protocol state machine (acceptor). It is a pure function of the case and
@@ -75,6 +77,8 @@ type result struct {
 	started     int
 	closeCode   int
 	delivered   int
+	// inconclusive: the verdict would depend on a window the rig cannot close (see below)
+	inconclusive string
 }
 
 func (r *result) label(l string) { r.labels = append(r.labels, l) }
@@ -173,7 +177,7 @@ func accept(c Case, h []event, final bool) *result {
 		connErrOK = map[int]bool{}
 		curMsg    = -1
 		lastW     *event           // previous message written to the client
-		pendErr   = map[string][]int{} // executors whose Execute returned an error and whose error message is due, by id
+		pendErr   = map[string]int{} // by id: 1 + message index of the executor whose Execute returned an error most recently and whose error message is due
 	)
 	// subject is the operation id the event being judged is about ("" = connection level).
 	// Once a violation on an id has been attributed to a recorded finding, the reference and
@@ -375,6 +379,11 @@ func accept(c Case, h []event, final bool) *result {
 				fd := ""
 				if failedShape(latest[m.ID]) && (!tws || refusedBy == 4409) {
 					fd = fFailed
+					if l := latest[m.ID]; !pbt.IsKnown(fFailed) && (l.xp == 0 || l.xp > f.rseq) {
+						// an engine that ends failed subscriptions may still have been between the
+						// error message and freeing the id when this subscribe arrived
+						res.inconclusive = "re-subscribe raced with the end of a failed subscription"
+					}
 				}
 				if tws {
 					bad(f.rseq, fd, "subscribe (message #%d) for id %q, which has no live operation (its last operation ended), was refused: server closed with %d", i, m.ID, refusedBy)
@@ -517,9 +526,9 @@ func accept(c Case, h []event, final bool) *result {
 				}
 			}
 		case e.Type == "error":
-			if q := pendErr[e.ID]; len(q) > 0 {
-				prod = instOf[q[0]]
-				pendErr[e.ID] = q[1:]
+			if m := pendErr[e.ID]; m > 0 {
+				prod = instOf[m-1]
+				delete(pendErr, e.ID)
 			}
 		case e.Type == "complete":
 			if lastW != nil && isData(lastW.Type) && lastW.ID == e.ID {
@@ -563,6 +572,9 @@ func accept(c Case, h []event, final bool) *result {
 				// the echo of a client complete for an operation that had already ended
 				if failedShape(x) {
 					fd = fFailed
+					if !pbt.IsKnown(fFailed) && (x.xp == 0 || x.xp > facts[curMsg].rseq) {
+						res.inconclusive = "client complete raced with the end of a failed subscription"
+					}
 				} else if fd == "" || x.termSeq < facts[curMsg].rseq {
 					fd = fStop
 				}
@@ -627,7 +639,7 @@ func accept(c Case, h []event, final bool) *result {
 			}
 		case evXR:
 			if e.Err {
-				pendErr[e.ID] = append(pendErr[e.ID], e.M)
+				pendErr[e.ID] = e.M + 1
 			}
 			if x := instOf[e.M]; x != nil && x.xr == 0 {
 				x.xr = e.Seq
